@@ -36,6 +36,11 @@ LEVEL_TEXT = (
     "literal doflocs lie on the entity their block position names and "
     "counts match. The 'iff' between sharing a number and sharing an entity "
     "on a concrete mesh additionally needs C11 and is not claimed.")
+LEVEL_TEXT += (
+    " Added after the seeding phase: (R6) ElementComposite._deduce_bfun "
+    "interpreted for ten count vectors on tet-like and hex-like cells: "
+    "local index i is served by the component function on the entity that "
+    "row i of element_dofs numbers.")
 LEVEL_NOTE = (
     "Trusted: numpy arange/reshape/vstack semantics. Not decided: "
     "properties of concrete meshes (uniqueness of entities is C11), "
